@@ -146,15 +146,216 @@ fn pivot(t: &mut [QVec], objs: &mut [&mut QVec], p: usize, q: usize) {
 /// min c.x  s.t.  A x <= b, x free.
 pub fn solve(a: &[QVec], b: &[Q], c: &[Q]) -> LpResult {
     LP_CALLS.with(|k| k.set(k.get() + 1));
-    let r = solve_inner(a, b, c);
-    if let Err(e) = check_certificate(a, b, c, &r) {
-        panic!("{ORACLE_ERR}: LP certificate rejected: {e}\nA={a:?}\nb={b:?}\nc={c:?}\nresult={r:?}");
+    // Equilibrate by exact powers of two: every row (and the objective) is divided by 2^k with
+    // 2^k <= max |coefficient| < 2^(k+1).  The feasible set, the rays and the minimisers are unchanged
+    // and the numbers stay small (rows scaled by 2^-36 next to rows scaled by 2^30 would otherwise push
+    // every pivot into big-integer arithmetic).  The certificate is checked on the scaled system, which
+    // is equivalent to the original one.
+    let pow2 = |v: &[Q]| -> Q {
+        let m = v.iter().map(|x| x.abs()).max().unwrap_or(Q::zero());
+        if m.is_zero() {
+            return Q::one();
+        }
+        let e = m.to_f64().log2().floor() as i32;
+        if e == 0 || !(-1000..=1000).contains(&e) {
+            return Q::one();
+        }
+        Q::from_f64(2f64.powi(-e))
+    };
+    let mut a2: Vec<QVec> = Vec::with_capacity(a.len());
+    let mut b2: QVec = Vec::with_capacity(b.len());
+    for (row, bb) in a.iter().zip(b) {
+        let k = pow2(row);
+        if k == Q::one() {
+            a2.push(row.clone());
+            b2.push(bb.clone());
+        } else {
+            a2.push(row.iter().map(|x| x * &k).collect());
+            b2.push(bb * &k);
+        }
+    }
+    let kc = pow2(c);
+    let c2: QVec = if kc == Q::one() { c.to_vec() } else { c.iter().map(|x| x * &kc).collect() };
+    let r = if a2.len() > c2.len() { solve_dual(&a2, &b2, &c2) } else { solve_inner(&a2, &b2, &c2) };
+    if let Err(e) = check_certificate(&a2, &b2, &c2, &r) {
+        panic!("{ORACLE_ERR}: LP certificate rejected: {e}\nA={a2:?}\nb={b2:?}\nc={c2:?}\nresult={r:?}");
     }
     CERTS.with(|k| k.set(k.get() + 1));
-    r
+    match r {
+        LpResult::Optimal { x, dual, .. } => {
+            // value with respect to the caller's objective
+            let value = qdot(c, &x);
+            LpResult::Optimal { x, dual, value }
+        }
+        other => other,
+    }
 }
 
-fn solve_inner(a: &[QVec], b: &[Q], c: &[Q]) -> LpResult {
+/// Same problem solved through its dual `min b.y s.t. A^T y = -c, y >= 0` (two-phase tableau, Bland's rule).
+/// The tableau has n rows instead of m, which is much smaller for the path polyhedra met here (few
+/// variables, many rows).  Primal solution = phase-2 multipliers, read off the artificial columns.
+/// Like `solve_inner` its answers are only believed after `check_certificate`.
+pub fn solve_dual(a: &[QVec], b: &[Q], c: &[Q]) -> LpResult {
+    let m = a.len();
+    let n = c.len();
+    if m == 0 || n == 0 {
+        return solve_inner(a, b, c);
+    }
+    // columns: y_0..y_{m-1}, art_0..art_{n-1}, rhs
+    let ncols = m + n;
+    let mut sign: Vec<bool> = Vec::with_capacity(n); // true = row multiplied by -1
+    let mut t: Vec<QVec> = Vec::with_capacity(n);
+    for k in 0..n {
+        let d = -&c[k];
+        let neg = d.is_neg();
+        sign.push(neg);
+        let mut row = vec![Q::zero(); ncols + 1];
+        for i in 0..m {
+            if !a[i][k].is_zero() {
+                row[i] = if neg { -&a[i][k] } else { a[i][k].clone() };
+            }
+        }
+        row[m + k] = Q::one();
+        row[ncols] = if neg { -&d } else { d };
+        t.push(row);
+    }
+    let mut basis: Vec<usize> = (0..n).map(|k| m + k).collect();
+    let mut r2 = vec![Q::zero(); ncols + 1];
+    for i in 0..m {
+        r2[i] = b[i].clone();
+    }
+    let mut r1 = vec![Q::zero(); ncols + 1];
+    for k in 0..n {
+        for j in 0..m {
+            if !t[k][j].is_zero() {
+                r1[j] = &r1[j] - &t[k][j];
+            }
+        }
+        r1[ncols] = &r1[ncols] - &t[k][ncols];
+    }
+    let ratio_row = |t: &Vec<QVec>, basis: &Vec<usize>, q: usize| -> Option<usize> {
+        let mut best: Option<(usize, Q)> = None;
+        for i in 0..n {
+            if t[i][q].is_pos() {
+                let ratio = &t[i][ncols] / &t[i][q];
+                best = match best {
+                    None => Some((i, ratio)),
+                    Some((bi, br)) => {
+                        if ratio < br || (ratio == br && basis[i] < basis[bi]) {
+                            Some((i, ratio))
+                        } else {
+                            Some((bi, br))
+                        }
+                    }
+                };
+            }
+        }
+        best.map(|(i, _)| i)
+    };
+    // phase 1 (skipped when the artificial basis is already at value zero)
+    if r1[ncols].is_neg() {
+        loop {
+            let q = match (0..m).find(|&j| r1[j].is_neg()) {
+                Some(q) => q,
+                None => break,
+            };
+            let p = ratio_row(&t, &basis, q).expect("phase 1 cannot be unbounded");
+            pivot(&mut t, &mut [&mut r1, &mut r2], p, q);
+            basis[p] = q;
+        }
+        if r1[ncols].is_neg() {
+            // dual infeasible: w = phase-1 multipliers, A w <= 0 and c.w < 0
+            let ray: QVec = (0..n)
+                .map(|k| {
+                    let w = &Q::one() - &r1[m + k];
+                    if sign[k] {
+                        -&w
+                    } else {
+                        w
+                    }
+                })
+                .collect();
+            // primal feasible?  (objective 0: the dual of that problem is trivially feasible)
+            let zero = vec![Q::zero(); n];
+            return match solve_dual(a, b, &zero) {
+                LpResult::Infeasible { farkas } => LpResult::Infeasible { farkas },
+                LpResult::Optimal { x, .. } | LpResult::Unbounded { x, .. } => LpResult::Unbounded { x, ray },
+            };
+        }
+    }
+    // drive artificials out of the basis (degenerate pivots; rows without a real entry are redundant)
+    for i in 0..n {
+        if basis[i] >= m {
+            if let Some(q) = (0..m).find(|&j| !t[i][j].is_zero()) {
+                pivot(&mut t, &mut [&mut r1, &mut r2], i, q);
+                basis[i] = q;
+            }
+        }
+    }
+    // phase 2
+    loop {
+        let q = match (0..m).find(|&j| r2[j].is_neg()) {
+            Some(q) => q,
+            None => break,
+        };
+        let mut best: Option<(usize, Q)> = None;
+        for i in 0..n {
+            if basis[i] >= m {
+                continue; // redundant zero row
+            }
+            if t[i][q].is_pos() {
+                let ratio = &t[i][ncols] / &t[i][q];
+                best = match best {
+                    None => Some((i, ratio)),
+                    Some((bi, br)) => {
+                        if ratio < br || (ratio == br && basis[i] < basis[bi]) {
+                            Some((i, ratio))
+                        } else {
+                            Some((bi, br))
+                        }
+                    }
+                };
+            }
+        }
+        match best {
+            Some((p, _)) => {
+                pivot(&mut t, &mut [&mut r2], p, q);
+                basis[p] = q;
+            }
+            None => {
+                // dual unbounded: y = e_q - sum t[i][q] e_basis(i) >= 0, A^T y = 0, b.y < 0
+                let mut farkas = vec![Q::zero(); m];
+                farkas[q] = Q::one();
+                for i in 0..n {
+                    if basis[i] < m && !t[i][q].is_zero() {
+                        farkas[basis[i]] = -&t[i][q];
+                    }
+                }
+                return LpResult::Infeasible { farkas };
+            }
+        }
+    }
+    let mut dual = vec![Q::zero(); m];
+    for i in 0..n {
+        if basis[i] < m {
+            dual[basis[i]] = t[i][ncols].clone();
+        }
+    }
+    let x: QVec = (0..n)
+        .map(|k| {
+            let pi = -&r2[m + k];
+            if sign[k] {
+                -&pi
+            } else {
+                pi
+            }
+        })
+        .collect();
+    let value = qdot(c, &x);
+    LpResult::Optimal { x, dual, value }
+}
+
+pub fn solve_inner(a: &[QVec], b: &[Q], c: &[Q]) -> LpResult {
     let m = a.len();
     let n = c.len();
     for r in a {
@@ -485,6 +686,30 @@ pub fn has_ball(rows: &[Row], n: usize, delta: &Q) -> bool {
     feasible_closed(&shrunk, n).is_some()
 }
 
+/// `full_dim` restricted to the box |x|_inf <= 1e6 (see `has_ball_boxed`).
+pub fn full_dim_boxed(rows: &[Row], n: usize) -> Option<QVec> {
+    let b = Q::int(1_000_000);
+    // cheaper first: without the box rows; an interior point that happens to lie strictly inside the box
+    // settles the question, no interior at all settles it too
+    match full_dim(rows, n) {
+        None => return None,
+        Some(x) => {
+            if x.iter().all(|v| v.abs() < b) {
+                return Some(x);
+            }
+        }
+    }
+    let mut all: Vec<Row> = rows.to_vec();
+    for j in 0..n {
+        let mut e = vec![Q::zero(); n];
+        e[j] = Q::one();
+        all.push(Row::le(e.clone(), b.clone()));
+        e[j] = Q::int(-1);
+        all.push(Row::le(e, b.clone()));
+    }
+    full_dim(&all, n)
+}
+
 /// `has_ball` restricted to the box |x|_inf <= 1e6.  With rounded coefficients two almost parallel
 /// hyperplanes can enclose a region that exists only at coordinates ~1e16; such a region is not
 /// "reachable by a margin" in any meaningful floating-point sense, so demands of the form "the
@@ -605,4 +830,34 @@ mod tests {
         assert!(nonempty_exact(&rows3, 2).is_some());
         assert!(full_dim(&rows3, 2).is_some());
     }
+}
+
+/// Rows relaxed by a margin; a system that is still infeasible after this relaxation is "infeasible by
+/// a margin".  Row i is relaxed by `delta * (1 + |b_i| + |a_i|_1)` plus `delta * |a_i|_inf * M` where
+/// `M = max_k |b_k| / |a_k|_inf` is the largest bias of the row-equilibrated system: a floating-point
+/// LP works on all rows at once, so one row with bias 1e16 (a point set that lives at astronomically
+/// large coordinates) limits the absolute accuracy of every other row of that system.
+pub fn relaxed(rows: &[Row], delta: &Q) -> Vec<Row> {
+    let inf = |r: &Row| r.a.iter().map(|v| v.abs()).max().unwrap_or(Q::zero());
+    let mut big = Q::zero();
+    for r in rows {
+        let m = inf(r);
+        if !m.is_zero() {
+            let v = &r.b.abs() / &m;
+            if v > big {
+                big = v;
+            }
+        }
+    }
+    rows.iter()
+        .map(|r| {
+            let own = &(&Q::one() + &r.b.abs()) + &norm1(&r.a);
+            let glob = &inf(r) * &big;
+            Row::le(r.a.clone(), &r.b + &(delta * &(&own + &glob)))
+        })
+        .collect()
+}
+
+pub fn infeasible_by_margin(rows: &[Row], n: usize, delta: &Q) -> bool {
+    feasible_closed(&relaxed(rows, delta), n).is_none()
 }
